@@ -2,3 +2,4 @@ import SspModel.Props.C01
 #print axioms Model.C01.C01_partial
 #print axioms Model.C01.mStar_spec
 #print axioms Model.C01.closed_star_unique
+#print axioms Model.C01.star_mass_rate
